@@ -696,8 +696,17 @@ def run(ctx):
                 ctx.extra_kept = getattr(ctx, "extra_kept", 0) + 1
             else:
                 ctx.count("oracle", "kept==closure" if not missing else "missing")
-            key = fpg
+            # item names contain group/file ids: they are comparable only between links with the same grouping, and the grouping
+            # depends on WILD_FILES_PER_GROUP and (through symbols-per-group) on the thread count. The kept symbols are compared
+            # between ALL links of the program.
+            key = (fpg, threads)
             popped = tuple(info["popped"])
+            if "kept" not in results:
+                results["kept"] = (mine, cfg)
+            elif results["kept"][0] != mine:
+                ctx.cov["impl_oracle_failures"] += 1
+                ctx.violation(f"schedule-dependent:{nobj}", "kept symbol set differs between two links of the same program (different schedule / grouping)",
+                              replay_info({"other": results["kept"][1], "diff_syms": sorted(results["kept"][0] ^ mine)[:10]}, keep="dir"))
             if key in results:
                 if results[key][0] != mine or results[key][1] != popped:
                     ctx.cov["impl_oracle_failures"] += 1
